@@ -88,9 +88,13 @@ Definition step_corr (c : cfgT) (w : wobs) (s : step) : bool :=
   && list_beq op_beq (r_log r) (s_oplog s)
   && fs_beq (r_fs r) (wo_fs w')
   && kstate_beq (r_ks r) (wo_ks w')
-  && match s_res s with
-     | ROk => opt_beq (list_beq lobs_beq) (r_layers r) (option_map sort_lobs (s_layers s))
-     | _ => true
+  && match s_res s, s_layers s with
+     | ROk, Some los => opt_beq (list_beq lobs_beq) (r_layers r) (Some (sort_lobs los))
+     | ROk, None =>
+       (* no layer table observed: a hand-made step (the model has none either), or a step run by
+          the real binary, whose probed layer table cannot be seen from outside the process *)
+       true
+     | _, _ => true
      end.
 
 (* diagnostics: per step, which components agree (bit0 class, 1 log, 2 fs, 3 kernel, 4 layers) *)
@@ -101,9 +105,9 @@ Definition step_diag (c : cfgT) (w : wobs) (s : step) : N :=
   + (if list_beq op_beq (r_log r) (s_oplog s) then 2 else 0)
   + (if fs_beq (r_fs r) (wo_fs w') then 4 else 0)
   + (if kstate_beq (r_ks r) (wo_ks w') then 8 else 0)
-  + (match s_res s with
-     | ROk => if opt_beq (list_beq lobs_beq) (r_layers r) (option_map sort_lobs (s_layers s)) then 16 else 0
-     | _ => 16 end).
+  + (match s_res s, s_layers s with
+     | ROk, Some los => if opt_beq (list_beq lobs_beq) (r_layers r) (Some (sort_lobs los)) then 16 else 0
+     | _, _ => 16 end).
 Fixpoint diag_along (c : cfgT) (w : wobs) (ss : list step) : list N :=
   match ss with [] => [] | s :: r => step_diag c w s :: diag_along c (after w s) r end.
 Fixpoint world_before (w : wobs) (ss : list step) (n : nat) : wobs :=
